@@ -16,8 +16,13 @@ open AQ AQ.Recv AQ.RecvF AQ.Gen.Recv
 structure ObsPayload where
   result : Outcome (Bool × Bool)
   closes : Option Nat
+  /-- `len(_peer_cid_available)` after the payload (NEW_CONNECTION_ID frames change it) -/
+  avail : Option Nat := none
 
 def runObserved (s : St) (_ep : Epoch) (_cr : Bool) (p : ObsPayload) : St × Outcome (Bool × Bool) :=
+  let s := match p.avail with
+    | some n => { s with peerCidAvailable := n }
+    | none => s
   (match p.closes with
    | some code => if s.closeEvent.isNone then ({ s with closeEvent := some code }).closeBegin false else s
    | none => s, p.result)
@@ -141,7 +146,8 @@ def stepRecvPath (w : RxW) : List String → RxW × String
                       closeAtSet := kvGet toks "closeat" == some "1",
                       initialized := kvGet toks "init" == some "1",
                       nPaths := natOf toks "npaths" 0, retryCount := natOf toks "retry" 0,
-                      vnDone := kvGet toks "vn" == some "1" } }, "ok")
+                      vnDone := kvGet toks "vn" == some "1",
+                      peerCidAvailable := natOf toks "avail" 0 } }, "ok")
   | "rx.dgram" :: small :: pkts =>
     let parsePkt (t : String) : Option (Pkt ObsPayload) :=
       let f := t.splitOn ","
@@ -156,7 +162,8 @@ def stepRecvPath (w : RxW) : List String → RxW × String
             | some "VERSION_NEGOTIATION" => some .versionNegotiation | some "ONE_RTT" => some .oneRtt
             | _ => none
           pt.map (fun pt => .ok { ptype := pt, versionSupported := g "vs" == some "1",
-                                  dcidKnown := g "known" == some "1", retryValid := g "rv" == some "1",
+                                  dcidKnown := g "known" == some "1", dcidNotCurrent := g "nc" == some "1",
+                                  retryValid := g "rv" == some "1",
                                   vnHasCurrent := g "vc" == some "1", vnHasCommon := g "vm" == some "1",
                                   vnEcho := g "ve" == some "1" })
         | _ => none
@@ -170,7 +177,8 @@ def stepRecvPath (w : RxW) : List String → RxW × String
               | ["conn", n] => .error (.conn (n.toNat?.getD 0))
               | _ => .error (.py .notImplemented)
             | none => .ok (false, false)
-          .ok (g "dup" == some "1") (g "res" == some "1") ⟨res, (g "closes").bind String.toNat?⟩
+          .ok (g "dup" == some "1") (g "res" == some "1")
+              ⟨res, (g "closes").bind String.toNat?, (g "av").bind String.toNat?⟩
               false (g "disc" == some "1")
         | _ => .cryptoError
       hdr.map (fun h => { hdr := h, dec := dec })
@@ -180,7 +188,7 @@ def stepRecvPath (w : RxW) : List String → RxW × String
       let o := match out with
         | .ignored => "ok ignored" | .processed => "ok processed" | .closed c => s!"ok closed {c}"
         | .raised cls => "err " ++ cls
-      ({ w with st := s' }, o ++ s!" | state={s'.state.name} pending={showB s'.closePending} closed={showOpt s'.closeEvent} closeat={showB s'.closeAtSet} init={showB s'.initialized} paths={showB (decide (s'.nPaths > 0))}")
+      ({ w with st := s' }, o ++ s!" | state={s'.state.name} pending={showB s'.closePending} closed={showOpt s'.closeEvent} closeat={showB s'.closeAtSet} init={showB s'.initialized} paths={showB (decide (s'.nPaths > 0))} avail={s'.peerCidAvailable}")
     | none => (w, "bad-op")
   | ["rx.hdr", hex, cidlen] =>
     match ofHex hex, cidlen.toNat? with
